@@ -145,7 +145,7 @@ var v2C05Kinds = []v2Tr{
 	}},
 	v2Decor("// "), v2Decor("# "), v2Decor(" * "), v2Decor("; "), v2Decor("-- "), v2Decor("> "), v2Decor("| "), v2Decor("% "),
 	{"typographic", func(vt *v2T, l []string, ex []bool) ([]string, []int) {
-		dashes := []string{"–", "—", "‒", "‐"}
+		dashes := []string{"–", "—", "‒", "‐", "\u2011", "\u2015"} // the dash block U+2010..U+2015
 		return v2MapLines(l, ex, func(s string) string {
 			var sb strings.Builder
 			open := true
